@@ -251,7 +251,17 @@ def main(argv=None):
         key = (jd['fn'], json.dumps(jd['params'], sort_keys=True), f['kind'], f['name'])
         seen.setdefault(key, (jd, f))
     cand = list(seen.values())
-    max_replays = 24
+    # replay order: one candidate per harness job in turn, so that a change that breaks many obligations of one job in the
+    # symbolic domain cannot crowd out the job whose failure also reproduces in float64
+    groups = {}
+    for item in cand:
+        groups.setdefault((item[0]['fn'], json.dumps(item[0]['params'], sort_keys=True)), []).append(item)
+    cand = []
+    while any(groups.values()):
+        for k in list(groups):
+            if groups[k]:
+                cand.append(groups[k].pop(0))
+    max_replays = 60
     confirmed, real_only, encoding_bad, unreplayed = [], [], [], []
     os.makedirs(REPLAYS, exist_ok=True)
 
@@ -304,9 +314,21 @@ def main(argv=None):
     unreplayed = cand[max_replays:]
 
     # ---------------- witness validation (symbolic result at a model vs real float run)
-    nwit = int(os.environ.get('VERIF_NWIT') or (6 if tier == 'quick' else 16))      # VERIF_NWIT: replay more witnesses (machinery self-test)
-    step = max(1, len(witnesses) // nwit) if witnesses else 1
-    chosen = witnesses[::step][:nwit]
+    # Each chosen witness is one solver model of a completed path, re-run through the real code in float64.  A float run that
+    # fails an obligation (or raises) at such a model is a counterexample on the real code and is reported as a violation: this
+    # is how behaviour that only exists for float64 arrays (dtype tests, NumPy strictness) is reached.  A float run that merely
+    # observes other values than the symbolic run is a mistake of the machinery (witness mismatch -> inconclusive).
+    nwit = int(os.environ.get('VERIF_NWIT') or (100 if tier == 'quick' else 200))      # VERIF_NWIT: replay more witnesses
+    # one witness per harness job first (round robin), then more of each
+    wgroups = {}
+    for item in witnesses:
+        wgroups.setdefault((item[0]['fn'], json.dumps(item[0]['params'], sort_keys=True)), []).append(item)
+    chosen = []
+    while any(wgroups.values()) and len(chosen) < nwit:
+        for k in list(wgroups):
+            if wgroups[k] and len(chosen) < nwit:
+                g = wgroups[k]
+                chosen.append(g.pop(len(g) // 2))
     validated, wit_bad = 0, []
 
     def wit_one(item):
@@ -317,11 +339,20 @@ def main(argv=None):
         for (jd, w), r in pool.map(wit_one, chosen):
             if not r.get('ok') or 'unmet' in r or any(isinstance(v, str) and v[:1] in '~?' for v in w['inputs'].values()):
                 continue
-            if r.get('raised'):
-                wit_bad.append(dict(harness=jd['fn'], params=jd['params'], inputs=w['inputs'], raised=r['raised']))
+            failed = [(n, meta) for n, okv, meta in r.get('obligations', []) if not okv]
+            if r.get('raised') or failed:
+                kind = 'exception' if r.get('raised') else 'obligation'
+                name = r['raised'].get('name') if r.get('raised') else failed[0][0]
+                key = (jd['fn'], json.dumps(jd['params'], sort_keys=True), kind, name)
+                if not any((c['harness'], json.dumps(c['params'], sort_keys=True), c['kind'], c['obligation']) == key for c in confirmed):
+                    confirmed.append(dict(property=prop, harness=jd['fn'], params=jd['params'], kind=kind, obligation=name,
+                                          inputs=w['inputs'], solver_model=None, message=(r.get('raised') or {}).get('message'), goal=None,
+                                          trace=None, float_detail=(r.get('raised') or failed[0][1]), exact_reproduced=None,
+                                          float_reproduced=True, traceback=(r.get('raised') or {}).get('traceback'),
+                                          found_by='float64 replay of a path witness (the symbolic run of this path discharged the obligation)'))
                 continue
             bad = _cmp_obs(w['observed'], r.get('observed', {}))
-            failed_obl = [n for n, okv, _ in r.get('obligations', []) if not okv]
+            failed_obl = []
             if bad or failed_obl:
                 wit_bad.append(dict(harness=jd['fn'], params=jd['params'], inputs=w['inputs'], mismatch=bad[:5],
                                     failed_float_obligations=failed_obl[:5]))
